@@ -42,6 +42,7 @@ class Knobs:
     grid_before: float = 0.0  # D2
     checkbox_onoff: float = 0.0  # D4
     ddlist_empty: float = 0.0  # D3
+    ddlist_markup: float = 0.0  # drop-down entries with & < > (not escaped in html)
     no_r_namespace: float = 0.0  # D1
     start_zero: float = 0.0  # D13
     markers_in_link: float = 0.0  # D23
@@ -326,7 +327,11 @@ class Gen:
             if self.p(0.6) and n:
                 kids.append(self.E("w:result", {"w:val": str(self.r.randrange(n))}))
             for i in range(n):
-                kids.append(self.E("w:listEntry", {"w:val": self.r.choice(["one", "t&o", "<3>", f"opt{i}"])}))
+                ev = self.r.choice(["one", "two words", f"opt{i}"])
+                if self.p(self.k.ddlist_markup):
+                    ev = self.r.choice(["t&o", "<3>"])
+                    self.feat("ddlist_markup")
+                kids.append(self.E("w:listEntry", {"w:val": ev}))
             ff = self.E("w:ffData", {}, self.E("w:ddList", {}, *kids))
         return self.E("w:fldChar", {"w:fldCharType": "begin"}, ff)
 
@@ -437,8 +442,16 @@ class Gen:
         n = self.r.randint(0, self.k.max_runs)
         open_comments: list[str] = []
         base_rpr = self.rpr()
+        last_link = False
         for _ in range(n):
             c = self.r.random()
+            is_link = 0.5 <= c < 0.5 + self.k.links * 0.6
+            if is_link and last_link and not self.p(self.k.link_mixed_format):
+                # adjacent hyperlinks with one target are fused by the library; with
+                # differently formatted runs that is the D7 class (edge stream only)
+                p.append(self.E("w:r", {}, self.E("w:t", {"xml:space": "preserve"}, text=" ")))
+            if is_link or c < 0.5 or c >= 0.95:
+                last_link = is_link
             if c < 0.5:
                 # often repeat the previous formatting so that runs merge
                 pr_ = None
